@@ -47,12 +47,18 @@ ROWS = [
     ('COMMA', 'Comma, Inc', 'Misc', 'C', 'x'),
     ('BRACKET', 'Name [x]', 'Misc', 'B', ''),
     ('SPACE', '  Padded  ', ' Cat ', ' Sub ', ' t1 | t2 '),
+    ('UTIL[month=12]', 'Util', 'Bills', 'U', ''),
+    ('UTIL[month=1]', 'Util', 'Bills', 'U', ''),
+    ('UTIL[amount=77]', 'Util', 'Bills', 'U', ''),
+    ('AUTH[amount<1]', 'Card Auth', 'Fees', 'Auth', ''),
+    ('ZERO[amount=0]', 'Zero', 'Fees', 'Zero', ''),
+    ('SMALL[amount:0-5]', 'Small', 'Fees', 'Small', ''),
 ]
 DESCS = ['NETFLIX.COM', 'COSTCO WHOLESALE', 'UBER EATS ORDER', 'UBER TRIP', 'SHELL OIL', 'SHELLFISH BAR', 'AMAZON MKTP', 'RENT PAYMENT', 'GYM CLUB', 'TAX OFFICE',
          'BDAY CAKE', 'RECENT THING', 'SAY "HI" STORE', 'A.B\\C LTD', 'TAGGED ITEM', 'GREEN TEA', 'Mixed Case', 'BIG BUY', 'WIRE IN', "O'BRIEN", 'DUP', '#HASH TAG',
-         'COMMA', 'BRACKET', 'SPACE', 'NOTHING']
-AMOUNTS = [-20.0, 0.5, 5.0, 30.0, 49.99, 50.0, 199.99, 200.0, 200.01, 1499.99, 1499.995, 1500.0, 1500.004, 1500.02, 12345.67, 12345.68]
-DATES = [date(2025, 4, 1), date(2025, 4, 30), date(2025, 5, 1), date(2025, 6, 15), date(2025, 12, 3), TODAY - timedelta(days=3), TODAY - timedelta(days=400)]
+         'COMMA', 'BRACKET', 'SPACE', 'UTIL CO', 'AUTH HOLD', 'ZERO FEE', 'SMALL ITEM', 'NOTHING']
+AMOUNTS = [-20.0, 0.0, 0.5, 77.0, 5.0, 30.0, 49.99, 50.0, 199.99, 200.0, 200.01, 1499.99, 1499.995, 1500.0, 1500.004, 1500.02, 12345.67, 12345.68]
+DATES = [date(2025, 1, 15), date(2025, 4, 1), date(2025, 4, 30), date(2025, 5, 1), date(2025, 6, 15), date(2025, 12, 3), TODAY - timedelta(days=3), TODAY - timedelta(days=400)]
 
 
 def write_csv(rows):
@@ -63,6 +69,28 @@ def write_csv(rows):
         for r in rows:
             w.writerow(r)
     return path
+
+
+def migrate_entry(rows):
+    from tally import cli
+    d = tempfile.mkdtemp(prefix='c14m-')
+    try:
+        cfg = os.path.join(d, 'config')
+        os.makedirs(cfg)
+        p = os.path.join(cfg, 'merchant_categories.csv')
+        with open(p, 'w', newline='', encoding='utf-8') as f:
+            wr = csv.writer(f)
+            wr.writerow(['Pattern', 'Merchant', 'Category', 'Subcategory', 'Tags'])
+            for r in rows:
+                wr.writerow(r)
+        open(os.path.join(cfg, 'settings.yaml'), 'w').write('year: 2025\n')
+        import contextlib
+        with contextlib.redirect_stdout(io.StringIO()):
+            ok = cli._migrate_csv_to_rules(p, cfg, backup=True)
+        out = os.path.join(cfg, 'merchants.rules')
+        return open(out, encoding='utf-8').read() if ok and os.path.exists(out) else None
+    finally:
+        shutil.rmtree(d, ignore_errors=True)
 
 
 def classify(rules, desc, amount, d):
@@ -86,6 +114,11 @@ def check(rows_idx, probes=None):
         return
     rules_path = os.path.join(TMP, 'merchants.rules')
     open(rules_path, 'w', encoding='utf-8').write(content)
+    # the migration entry point (tally up --migrate / tally init) must write that same conversion of the whole CSV
+    mig = migrate_entry(rows)
+    if mig is not None and mig != content:
+        O.fail('C14.migration_entry_writes_something_else_than_the_conversion', w, content[-300:], mig[-300:], 'cli._migrate_csv_to_rules vs csv_to_merchants_content(load_merchant_rules(csv))')
+        return
     try:
         parse_merchants(content)
     except Exception as e:
@@ -143,7 +176,7 @@ def main():
         for i in range(n):
             check([i])
         # rule files with several rows (order and interaction: first match, duplicates, tag accumulation)
-        groups = [[1, 2], [2, 1], [3, 4], [4, 3], [6, 7, 8], [8, 7, 6], [22, 23], [23, 22], [16, 0], [0, 16, 17], [10, 9, 0], [19, 20, 21],
+        groups = [[1, 2], [2, 1], [3, 4], [4, 3], [6, 7, 8], [8, 7, 6], [22, 23], [23, 22], [16, 0], [0, 16, 17], [10, 9, 0], [19, 20, 21], [28, 29, 30], [30, 29, 28],
                   [0, 1, 2, 3, 4, 6, 7, 8, 9, 10, 11, 12, 17, 19, 20, 21, 22, 23, 24]]
         for g in groups:
             check(g)
